@@ -15,6 +15,9 @@ use serde_json::{json, Value};
 pub fn runs_c05(t: Tier) -> usize {
     t.pick(640, 40000)
 }
+/// runs i in 3..3+INTEROP: fifty reference-made ciphertexts each (consecutive and random nonces)
+/// delivered to the library: an independent encryptor's output must always decrypt
+const INTEROP: usize = 30;
 pub fn runs_c06(t: Tier) -> usize {
     t.pick(32, 1500)
 }
@@ -73,6 +76,48 @@ pub fn run_c05(p: &mut Prng, t: Tier, i: usize, sink: &mut Sink) {
         sink.done(w);
         return;
     }
+    if i == 2 {
+        // the KDF clause: exactly the first klen bytes of SM3(Z||1)||SM3(Z||2)||... for klen on both
+        // sides of every counter-byte boundary
+        for zlen in [0usize, 64] {
+            w.exec(set("z", &p.bytes(zlen)));
+            for klen in (1..=96).chain([255, 256, 257, 8159, 8160, 8161, 8192, 8193, 16384, 65535, 65536, 65537]) {
+                w.exec(json!({"op":"entry.sm2.kdf","z":"z","klen":klen}));
+            }
+        }
+        // and a message beyond 255 KDF blocks, both directions
+        let msg = p.bytes(8200);
+        for enc in ["lib", "ref"] {
+            let mut ops = base_ops(p, enc, &msg, "C1C3C2", false, enc);
+            ops.push(dec_op(enc, "C1C3C2", false));
+            for op in ops {
+                w.exec(op);
+            }
+        }
+        sink.done(w);
+        return;
+    }
+    if (3..3 + INTEROP).contains(&i) {
+        let n = n_sm2();
+        let (d, _) = scalar_class(p, &n);
+        w.exec(set("x.d", &be32(&d)));
+        w.exec(json!({"op":"sm2.derive_pk","impl":"ref","d":"x.d","pk":"x.pk","comp":false}));
+        let k0 = (BigUint::from_bytes_be(&p.bytes32()) % (&n - 1000u32)) + 1u32;
+        for j in 0..50u32 {
+            let len = p.range(1, 64);
+            w.exec(set("x.msg", &p.bytes(len)));
+            let order = *p.pick(&ORDERS);
+            let comp = p.chance(1, 2);
+            let k = if j % 2 == 0 { &k0 + j } else { (BigUint::from_bytes_be(&p.bytes32()) % (&n - 1u32)) + 1u32 };
+            let script = json!({"c":[hex::encode(be32(&k))],"f":p.next_u64()});
+            w.exec(enc_op("x", "ref", order, comp, "new", script));
+            w.exec(dec_op("x", order, comp));
+            w.exec(json!({"op":"assert.eq","a":"x.pt","b":"x.msg","property":"C05","oracle":"O5.4-independent-ciphertext-decrypts","entry":"sm2.decrypt","class":"reference-made","what":"a ciphertext from a conforming independent encryptor does not decrypt"}));
+            w.slots.remove("x.pt");
+        }
+        sink.done(w);
+        return;
+    }
     let nsess = p.range(1, 3);
     let mut queues = vec![];
     for k in 0..nsess {
@@ -80,7 +125,7 @@ pub fn run_c05(p: &mut Prng, t: Tier, i: usize, sink: &mut Sink) {
         let len = if k == 0 {
             (i % 300) + 1
         } else if p.chance(1, 12) {
-            p.range(301, t.pick(5000, 65536))
+            p.range(301, t.pick(9000, 65536))
         } else {
             p.range(1, 300)
         };
@@ -100,7 +145,7 @@ pub fn run_c05(p: &mut Prng, t: Tier, i: usize, sink: &mut Sink) {
     for k in 0..nsess {
         w.exec(json!({"op":"assert.eq","a":format!("s{k}.pt"),"b":format!("s{k}.msg"),"property":"C05","oracle":"O5.1-round-trip","entry":"sm2.encrypt+decrypt","class":"round-trip","what":"decrypt(encrypt(M)) != M"}));
     }
-    if i == 2 {
+    if i == 40 {
         w.samples.push(json!({"schedule": w.history.iter().take(12).cloned().collect::<Vec<_>>() }));
     }
     sink.done(w);
@@ -257,6 +302,19 @@ pub fn run_c06(p: &mut Prng, _t: Tier, i: usize, sink: &mut Sink) {
         branches.push(vec![fault("a.ct", "extend", json!({"hex":hex::encode(vec![0u8; extra])})), dec()]);
         branches.push(vec![fault("a.ct", "extend", json!({"hex":hex::encode(p.bytes(extra))})), dec()]);
     }
+    // two-byte faults whose differences cancel under a folded comparison (inside C3, inside C2, across)
+    let c1len0 = if comp { 33 } else { 65 };
+    let (c3_lo, c2_lo, c2_len) = if order == "C1C3C2" { (c1len0, c1len0 + 32, ct.len() - c1len0 - 32) } else { (ct.len() - 32, c1len0, ct.len() - c1len0 - 32) };
+    for _ in 0..32 {
+        let (a, b) = (c3_lo + p.range(0, 31), c3_lo + p.range(0, 31));
+        if a != b {
+            branches.push(vec![fault("a.ct", "xorpair", json!({"pos1":a,"pos2":b,"val":1u8 << p.below(8)})), dec()]);
+        }
+    }
+    for _ in 0..8 {
+        let (a, b) = (c3_lo + p.range(0, 31), c2_lo + p.range(0, c2_len - 1));
+        branches.push(vec![fault("a.ct", "xorpair", json!({"pos1":a,"pos2":b,"val":1u8 << p.below(8)})), dec()]);
+    }
     // misdelivery: the bystander's ciphertext, the bystander's key
     branches.push(vec![fault("a.ct", "copy", json!({"from":"b.ct"})), dec()]);
     branches.push(vec![fault("a.d", "copy", json!({"from":"b.d"})), dec()]);
@@ -282,6 +340,25 @@ pub fn run_c06(p: &mut Prng, _t: Tier, i: usize, sink: &mut Sink) {
             // all-zero point, (0, sqrt(b)) style edge, coordinates = p
             branches.push(vec![fault("a.ct", "splice", json!({"pos":1,"hex":hex::encode([0u8; 64])})), dec()]);
             branches.push(vec![fault("a.ct", "splice", json!({"pos":1,"hex":hex::encode(be32(&pp))})), dec()]);
+            // crafted "zero point": C1 = (0,0); a decoder that maps it to infinity computes x2 = y2 = 0
+            {
+                let z = BigUint::from(0u32);
+                let t = kdf(&[0u8; 64], msg.len());
+                let c2: Vec<u8> = msg.iter().zip(t.iter()).map(|(a, b)| a ^ b).collect();
+                let c3 = sm3_parts(&[&[0u8; 32], &msg, &[0u8; 32]]);
+                let mut c = vec![4u8];
+                c.extend_from_slice(&be32(&z));
+                c.extend_from_slice(&be32(&z));
+                if order == "C1C2C3" {
+                    c.extend_from_slice(&c2);
+                    c.extend_from_slice(&c3);
+                } else {
+                    c.extend_from_slice(&c3);
+                    c.extend_from_slice(&c2);
+                }
+                w.bump("fault.crafted-zero-point");
+                branches.push(vec![set("a.ct", &c), dec()]);
+            }
             // crafted, consistent for the victim: invalid-curve points (random x, y => on y^2 = x^3 + a x + b')
             for _ in 0..6 {
                 let x = BigUint::from_bytes_be(&p.bytes32()) % &pp;
@@ -324,6 +401,20 @@ pub fn run_c06(p: &mut Prng, _t: Tier, i: usize, sink: &mut Sink) {
                 if rsm2::with_curve(|c| c.sqrt(&g)).is_none() {
                     branches.push(vec![fault("a.ct", "splice", json!({"pos":1,"hex":hex::encode(be32(&x))})), dec()]);
                     w.bump("fault.compressed-non-residue");
+                    // ... and the same x with C2, C3 consistent for a decoder that takes
+                    // g^((p+1)/4) as "the" root without checking it (both parities)
+                    let e = (&pp + 1u32) >> 2;
+                    let y0 = g.modpow(&e, &pp);
+                    for y in [y0.clone(), (&pp - &y0) % &pp] {
+                        if let Some(cu) = crafted_ct(&d, &x, &y, &x, &msg, order) {
+                            // re-frame the uncompressed crafted ciphertext with a compressed C1
+                            let mut c = vec![if y.bit(0) { 3u8 } else { 2u8 }];
+                            c.extend_from_slice(&be32(&x));
+                            c.extend_from_slice(&cu[65..]);
+                            w.bump("fault.crafted-non-residue-consistent");
+                            branches.push(vec![set("a.ct", &c), dec()]);
+                        }
+                    }
                     break;
                 }
             }
